@@ -100,6 +100,24 @@ def run_bytes(chk, nthreads, rounds, hs, label):
             raise vlib.Infra(f"thr_driver {mode} failed rc={r.returncode}: {r.stderr[-400:]}")
         dig[mode] = output_digests([Path(f"{prefix}.{t}.ndjson") for t in range(nthreads)])
     events = []
+    # ... and to the outputs of each program executed ALONE in a fresh process (nothing the library keeps from earlier
+    # instances of the same process - caches, hints, pools - may show in an output): a sample of the programs
+    import concurrent.futures as cf
+    solo_ix = list(range(0, len(hs), max(1, len(hs) // 24)))[:24]
+
+    def solo(j):
+        hf = work / f"solo{j}.ndjson"
+        hf.write_text(json.dumps(hs[j]) + "\n")
+        pre = work / f"solo{j}"
+        r = subprocess.run(["timeout", "300", str(exe), "seq", str(hf), "1", "1", str(pre)], capture_output=True, text=True, env=env)
+        if r.returncode != 0:
+            raise vlib.Infra(f"thr_driver seq (solo) failed rc={r.returncode}: {r.stderr[-300:]}")
+        return j, output_digests([Path(f"{pre}.0.ndjson")])[0]
+    with cf.ThreadPoolExecutor(8) as ex:
+        for j, runs in ex.map(solo, solo_ix):
+            t, k = j % nthreads, j // nthreads          # thread t executes histories t, t+N, ...: history j is its k-th
+            if runs and k < len(dig["seq"][t]):
+                events.append({"e": "B", "thread": -3, "history": j, "seq": runs[0], "thr": dig["seq"][t][k]})
     for t in range(nthreads):
         if len(dig["seq"][t]) != len(dig["run"][t]):
             raise vlib.Infra("sequential and concurrent run executed different numbers of histories")
